@@ -66,9 +66,21 @@ class HCheck(object):
         pass
 
     # hooks for engines that need a differently built world (twins)
+    #: run this check's state oracles (results discarded) on the state before the last
+    #: request, on the same object: a stale in-RAM cache filled by a query then shows up
+    warm_before_last = True
+
+    def warm(self, w):
+        if not self.warm_before_last or w.broken:
+            return
+        try:
+            self.check_state(w, Ctx())
+        except Exception:
+            pass
+
     def make_world(self, cfg, hist):
         """Build the world for hist; returns (world, last Trans) or (None, None) if disabled."""
-        return build(cfg, hist, predict_rules=self.predict_rules)
+        return build(cfg, hist, predict_rules=self.predict_rules, before_last=self.warm)
 
     def state_key(self, w):
         return w.key()
